@@ -7,6 +7,9 @@ address.  Each accepted connection takes the next fault spec from the plan (None
   {'dir': 's2c'|'c2s', 'kind': 'cut', 'at': k}        close both sides after exactly k bytes of that direction
   {'dir': 's2c', 'kind': 'blackhole', 'at': k}         forward k bytes of the reply stream, swallow the rest
   {'dir': 's2c', 'kind': 'drop', 'at': a, 'until': b}  swallow exactly bytes [a, b) of the reply stream (a reply lost entirely), forward the rest
+  {'dir': 's2c', 'kind': 'stall', 'at': k, 'hold': s}  forward k bytes of the reply stream, hold back what follows for s seconds
+                                                       (silence, not EOF), then deliver it all and become transparent
+A connection's spec may also be set after it was accepted (Conn.spec), e.g. once the session is registered.
 
 Per connection the relay records the bytes forwarded in both directions (the s2c record is what the client
 could have seen at most).
@@ -28,6 +31,10 @@ class Conn(object):
         self.seen = {}
         self.done = threading.Event()
         self.cut = False
+        self.held = bytearray()     # 'stall': reply bytes held back
+        self.held_until = 0.0
+        self.released = threading.Event()
+        self.part_sent_at = None
 
 
 class Relay(object):
@@ -72,12 +79,16 @@ class Relay(object):
             for s in (csock, ssock):
                 s.setsockopt(socket.IPPROTO_TCP, socket.TCP_NODELAY, 1)
                 s.setblocking(True)
-            spec = conn.spec
-            if spec and spec['kind'] == 'cut' and spec['at'] == 0 and spec['dir'] == 's2c':
-                # nothing of the reply stream may reach the client; requests still go upstream first
-                pass
             while True:
-                r, _, _ = select.select([csock, ssock], [], [], 0.5)
+                spec = conn.spec
+                stalling = conn.held and time.time() >= conn.held_until
+                if stalling:
+                    csock.sendall(bytes(conn.held))
+                    conn.s2c.extend(conn.held)
+                    conn.held = bytearray()
+                    conn.spec = spec = None
+                    conn.released.set()
+                r, _, _ = select.select([csock, ssock], [], [], 0.02 if conn.held else 0.5)
                 if self.stop:
                     break
                 for s in r:
@@ -113,6 +124,18 @@ class Relay(object):
                             if keep:
                                 out.sendall(bytes(keep))
                                 rec.extend(keep)
+                            continue
+                        if spec['kind'] == 'stall':
+                            part = data[:max(0, room)] if not conn.held else b''
+                            if part:
+                                out.sendall(part)
+                                rec.extend(part)
+                                conn.part_sent_at = time.time()
+                            rest = data[len(part):]
+                            if rest:
+                                if not conn.held:
+                                    conn.held_until = time.time() + spec['hold']
+                                conn.held.extend(rest)
                             continue
                         if spec['kind'] == 'blackhole':
                             part = data[:max(0, room)]
